@@ -2015,9 +2015,7 @@ class SpectralHelper:
         if self.ndim == 1:
             return self.axes[0].get_filter_matrix(**kwargs)
 
-        mats = [base.get_Id() for base in self.axes]
-        mats[axis] = self.axes[axis].get_filter_matrix(**kwargs)
-        return self.sparse_lib.kron(*mats)
+        return self.expand_matrix_ND(self.axes[axis].get_filter_matrix(**kwargs), axis)
 
     def get_differentiation_matrix(self, axes, **kwargs):
         """
